@@ -150,6 +150,51 @@ theorem interp_between_at (ts ys : List Q) (hl : ts.length = ys.length) (hinc : 
             have := ih (y1 :: ys'') (by simpa using hl) hinc' k hk h0' h1'
             simpa using this
 
+/-- no snapping: strictly between two recorded instants whose samples differ, the snapshot value is
+    neither of the two samples (however close to one of the instants the target is) -/
+theorem interp_not_sample (ts ys : List Q) (hl : ts.length = ys.length) (hinc : StrictInc ts) (i : Nat)
+    (hi : i + 1 < ts.length) (t : Q) (h0 : ts[i] < t) (h1 : t < ts[i + 1])
+    (hy : ys[i]'(by omega) ≠ ys[i + 1]'(by omega)) :
+    interp ts ys t ≠ some (ys[i]'(by omega)) ∧ interp ts ys t ≠ some (ys[i + 1]'(by omega)) := by
+  rw [interp_between_at ts ys hl hinc i hi t h0 h1]
+  have hd : 0 < ts[i + 1] - ts[i] := by linarith
+  have ha : 0 < t - ts[i] := by linarith
+  have hb : 0 < ts[i + 1] - t := by linarith
+  have hne : ys[i + 1]'(by omega) - ys[i]'(by omega) ≠ 0 := sub_ne_zero.mpr (Ne.symm hy)
+  constructor
+  · intro h
+    have h' := Option.some.inj h
+    have : (ys[i + 1]'(by omega) - ys[i]'(by omega)) * (t - ts[i]) / (ts[i + 1] - ts[i]) = 0 := by linarith
+    rw [div_eq_zero_iff] at this
+    rcases this with h2 | h2
+    · rcases mul_eq_zero.mp h2 with h3 | h3
+      · exact hne h3
+      · linarith
+    · linarith
+  · intro h
+    have h' := Option.some.inj h
+    have e : (ys[i + 1]'(by omega) - ys[i]'(by omega)) * (t - ts[i]) / (ts[i + 1] - ts[i])
+        = ys[i + 1]'(by omega) - ys[i]'(by omega) := by linarith
+    rw [div_eq_iff (ne_of_gt hd)] at e
+    have : (ys[i + 1]'(by omega) - ys[i]'(by omega)) * (ts[i + 1] - t) = 0 := by linarith
+    rcases mul_eq_zero.mp this with h3 | h3
+    · exact hne h3
+    · linarith
+
+/-- … and it lies at the same fraction of the way between the two samples as the target between the two instants:
+    a target `δ` after an instant moves the value by `δ` times the slope -/
+theorem interp_offset (ts ys : List Q) (hl : ts.length = ys.length) (hinc : StrictInc ts) (i : Nat)
+    (hi : i + 1 < ts.length) (δ : Q) (h0 : 0 < δ) (h1 : ts[i] + δ < ts[i + 1]) :
+    interp ts ys (ts[i] + δ) =
+      some (ys[i]'(by omega) + δ * ((ys[i + 1]'(by omega) - ys[i]'(by omega)) / (ts[i + 1] - ts[i]))) := by
+  rw [interp_between_at ts ys hl hinc i hi (ts[i] + δ) (by linarith) h1]
+  congr 1
+  have hd : ts[i + 1] - ts[i] ≠ 0 := by
+    have : ts[i] < ts[i + 1] := by linarith
+    exact ne_of_gt (by linarith)
+  field_simp
+  ring
+
 /-- beyond the last recorded instant there is no value either -/
 theorem interp_outside_right (ts ys : List Q) (hl : ts.length = ys.length) (hinc : StrictInc ts) (t : Q)
     (h : ∀ x ∈ ts, x < t) : interp ts ys t = none := by
